@@ -139,7 +139,7 @@ def cvc5_check(smt2, timeout_s):
         os.unlink(path)
 
 
-def run_explore(unit, body, reg, default_props, timeout_ms, setup=None, max_paths=6000):
+def run_explore(unit, body, reg, default_props, timeout_ms, setup=None, max_paths=6000, recheck=False):
     """explore all paths of body; return a JSON-able unit result.  Every path is digested as soon as it ends so that
     no solver state is kept (a unit with thousands of paths would otherwise need tens of GB)"""
     w = get_world()
@@ -162,6 +162,14 @@ def run_explore(unit, body, reg, default_props, timeout_ms, setup=None, max_path
                 nref[vc.name] = nref.get(vc.name, 0) + 1
             d = _vc_dict(vc, ex, props_of(vc.name, default_props), nref.get(vc.name, 0) <= 2)
             d["path"] = [f"{t}={c}" for t, c in zip(r.tags, r.trace)][-12:]
+            if vc.verdict == "discharged" and vc.smt2:
+                # thorough tier: the same query is put to cvc5; both solvers must agree
+                ans = cvc5_check(vc.smt2, 120)
+                d["cvc5"] = ans
+                d.pop("smt2", None)
+                if ans == "sat":
+                    d["verdict"] = "unknown"
+                    d["detail"] = "z3 says unsat, cvc5 says sat: solvers disagree"
             if vc.verdict == "unknown" and vc.smt2:
                 ans = cvc5_check(vc.smt2, timeout_ms / 1000.0)
                 if ans == "unsat":
@@ -176,7 +184,11 @@ def run_explore(unit, body, reg, default_props, timeout_ms, setup=None, max_path
         res["native_calls"] += ex.native_calls
 
     try:
-        interp.explore(w, body, unit, reg, max_paths=max_paths, timeout_ms=timeout_ms, setup=setup, on_path=digest,
+        def setup2(ex):
+            ex.dump_smt2 = recheck
+            if setup:
+                setup(ex)
+        interp.explore(w, body, unit, reg, max_paths=max_paths, timeout_ms=timeout_ms, setup=setup2, on_path=digest,
                        keep_ex=False)
     except interp.Budget as b:
         res["unsupported"].append({"reason": f"path budget exceeded: {b}", "path": []})
@@ -197,7 +209,8 @@ def unit_contract(key, tier):
                 "paths": 0, "unsupported": [{"reason": "contract does not bind", "path": []}]}
     fn = w.resolve(key)
     timeout = 60000 if tier == "quick" else 600000
-    res = run_explore(key, lambda ex: contracts.verify_body(ex, c, info, fn), reg, c.props, timeout)
+    res = run_explore(key, lambda ex: contracts.verify_body(ex, c, info, fn), reg, c.props, timeout,
+                      recheck=(tier == "thorough"))
     # vacuity: every outcome class the contract distinguishes must be reachable
     missing = [o for o in c.cover if o not in res["outcomes"]]
     res["cover"] = {"wanted": list(c.cover), "missing": missing}
